@@ -103,14 +103,16 @@ fn gridshift_inv_case(nbands: usize) {
             assert!(data[0].0[k].is_nan());
         }
     } else {
-        // the time coordinate is not the operator's business
+        // a counted tuple carries a result, not NaN (all values here are small integers, so an
+        // honest result is finite), and the time coordinate is not the operator's business
+        assert!(!data[0].0[0].is_nan() && !data[0].0[1].is_nan() && !data[0].0[2].is_nan());
         assert!(feq(data[0].0[3], a.0[3]));
     }
     kani::cover!(n == 1);
     kani::cover!(n == 0);
 }
 
-// @harness c10_gridshift_inv_geoid prop=C10 tier=quick cap=1200 stubs="M-BTREE, S-GRID, S-ACC(boolean), S-UF-SMALL(f64::hypot)" bound="1 one-band S-GRID grid, 1 tuple in D-SMALL, null flag symbolic: count <= 1, uncounted => all NaN, counted => t unchanged"
+// @harness c10_gridshift_inv_geoid prop=C10 tier=quick cap=1200 stubs="M-BTREE, S-GRID, S-ACC(boolean), S-UF-SMALL(f64::hypot)" bound="1 one-band S-GRID grid, 1 tuple in D-SMALL, null flag symbolic: count <= 1, uncounted => all NaN, counted => not NaN and t unchanged"
 #[kani::proof]
 #[kani::stub(ParsedParameters::boolean, acc_boolean)]
 #[kani::stub(f64::hypot, uf_binary_nonneg)]
@@ -119,7 +121,7 @@ fn c10_gridshift_inv_geoid() {
     gridshift_inv_case(1);
 }
 
-// @harness c10_gridshift_inv_datum prop=C10 tier=quick cap=1200 stubs="M-BTREE, S-GRID, S-ACC(boolean), S-UF-SMALL(f64::hypot)" bound="1 two-band S-GRID grid (same answer at every lookup), 1 tuple in D-SMALL, iteration unwound to its coded limit 10, convergence test uninterpreted: count <= 1, uncounted => all NaN, counted => t unchanged"
+// @harness c10_gridshift_inv_datum prop=C10 tier=quick cap=1200 stubs="M-BTREE, S-GRID, S-ACC(boolean), S-UF-SMALL(f64::hypot)" bound="1 two-band S-GRID grid (same answer at every lookup), 1 tuple in D-SMALL, iteration unwound to its coded limit 10, convergence test uninterpreted: count <= 1, uncounted => all NaN, counted => not NaN and t unchanged"
 #[kani::proof]
 #[kani::stub(ParsedParameters::boolean, acc_boolean)]
 #[kani::stub(f64::hypot, uf_binary_nonneg)]
